@@ -248,7 +248,42 @@ func cmdCheck(args []string) int {
 		wg.Add(1)
 		go worker(w, P, q, R, cfg, &wg)
 	}
-	wg.Wait()
+	// watchdog: the stop flag is only honoured at path boundaries; a path that never ends (a blocked
+	// scheduler, a solver that does not answer) must not hang the check
+	doneCh := make(chan struct{})
+	go func() { wg.Wait(); close(doneCh) }()
+	stuck := false
+	select {
+	case <-doneCh:
+	case <-time.After(time.Duration(*budget+120) * time.Second):
+		stuck = true
+		R.stop("exploration did not end within the wall budget (a path is stuck)")
+	}
+	if stuck {
+		// abandon the stuck workers: replay what was found so far and leave
+		R.mu.Lock()
+		viol := append([]Violation{}, R.Violations...)
+		R.mu.Unlock()
+		Rs := NewResults()
+		Rs.Violations = viol
+		msg := fmt.Sprintf("exploration did not end within %d s after the wall budget of %d s: a path is stuck (abandoned)", 120, *budget)
+		confirmed := 0
+		var lines []string
+		if !*noReplay && len(viol) > 0 {
+			rr := nativeReplay(*repo, *hdir, id, Rs, cfg.Tier)
+			confirmed, lines = rr.confirmed, rr.lines
+		}
+		writeEvidence(id, *tier, seed, nil, time.Since(t0).Seconds(), confirmed, []string{msg}, 0, *noEvidence)
+		fmt.Printf("gosmt property=%s tier=%s harnesses=%d STUCK candidates=%d confirmed=%d\n", id, *tier, len(hs), len(viol), confirmed)
+		for _, l := range lines {
+			fmt.Println(l)
+		}
+		if confirmed > 0 {
+			os.Exit(1)
+		}
+		fmt.Printf("INCONCLUSIVE property=%s: %s\n", id, msg)
+		os.Exit(2)
+	}
 	budgetTimer.Stop()
 	close(stopProg)
 	exploreS := time.Since(t0).Seconds() - loadS
@@ -663,7 +698,7 @@ func runNative(repo, hdir string, vf vectorFile, retries int) ([]nativeRes, erro
 		}
 		b, _ := json.Marshal(sub)
 		os.WriteFile(vecPath, b, 0o644)
-		args := []string{"test", "-v", "-vet=off", "-count=1", "-timeout", "600s", "-run", "^TestVerifReplay$", "-overlay", ovPath}
+		args := []string{"test", "-v", "-vet=off", "-count=1", "-timeout", "150s", "-run", "^TestVerifReplay$", "-overlay", ovPath}
 		env := append(goEnv(), "VERIF_VECTORS="+vecPath)
 		race := false
 		for _, v := range sub.Vectors {
@@ -719,6 +754,18 @@ func runNative(repo, hdir string, vf vectorFile, retries int) ([]nativeRes, erro
 			if (want == "fail" && (status == "ASSERTFAIL" || status == "PANIC")) || (want == "pass" && status == "PASS") || attempt >= retries-1 {
 				delete(pending, idx)
 			}
+		}
+		if got < len(idxs) && strings.Contains(text, "panic: test timed out") {
+			// the replay hangs (a deadlock or livelock in the code under test): that is a failing run of the
+			// first vector without a result
+			for _, idx := range idxs {
+				if !seenIdx[idx] {
+					out[idx] = nativeRes{status: "PANIC", msg: "the native run does not terminate (test timed out after 150 s)"}
+					delete(pending, idx)
+					break
+				}
+			}
+			continue
 		}
 		if got < len(idxs) && strings.Contains(text, "fatal error:") {
 			// the process died (e.g. "concurrent map writes"): attribute it to the first vector without a result
